@@ -582,6 +582,59 @@ func streamParse(o *Out, r *rand.Rand, n int, thorough bool) {
 			}
 		}
 	}
+	// a binary minus (or plus) written tight against the number that follows is still the binary operator, whatever operand stands on
+	// its left - a name, a literal, the words true / false / nil, a call, an index, a closing parenthesis
+	for _, left := range []string{"true", "false", "nil", "a", "1", "2.5", "\"s\"", "f()", "a[0]", "(a)", "a.b", "len(a)", "[1]", "{\"k\": 1}.k", "a++", "!true", "c ? true : false"} {
+		for _, num := range []string{"1", "2 * 3", "0x10", "1.5", "1e3", "1 - 2"} {
+			for _, op := range []string{"-", "+"} {
+				want, err := parser.ParseSrc("x = " + left + " " + op + " " + num)
+				if err != nil {
+					continue
+				}
+				for _, spelled := range []string{left + " " + op + num, left + op + num, left + op + " " + num, left + "\t" + op + num} {
+					if strings.HasSuffix(left, "+") && strings.HasPrefix(spelled[len(left):], "+") {
+						continue // a++ +1 written tight is another token sequence
+					}
+					o.Sum.Evaluations++
+					o.Sum.Hist["spelling:tight-sign"]++
+					got, err := parser.ParseSrc("x = " + spelled)
+					if err != nil {
+						o.Fail(Failure{Oracle: "spelling-parses", Key: "parse-error:tight-sign", Input: "x = " + spelled, Detail: fmt.Sprintf("%q parses, this spelling gives: %v", "x = "+left+" "+op+" "+num, err)})
+						continue
+					}
+					if astser.Prog(got) != astser.Prog(want) {
+						o.Fail(Failure{Oracle: "tree-as-spelled", Key: "parse-tree:tight-sign", Input: "x = " + spelled, Detail: fmt.Sprintf("with blanks the tree is %s\nthis spelling gives %s", astser.Prog(want), astser.Prog(got))})
+					}
+				}
+			}
+		}
+	}
+	// the parser is a function of the text: the same source parsed again - right away, and after other sources - gives the same
+	// verdict and the same tree (sources the grammar's actions reject included: unrepresentable numbers, a second default / else)
+	{
+		again := []string{"9223372036854775808", "x = -9223372036854775809", "0x8000000000000000", "y = 1e999", "1.2.3", "a = 0b2", "switch x {\ndefault:\n1\ndefault:\n2\n}",
+			"if a {\n} else {\n} else {\n}", "x = 1", "f(1e400)", "a = [1, 99999999999999999999]", "s = \"unterminated", "= 1", "x = 9223372036854775807", "func() { return 1e999 }"}
+		verdict := func(src string) string {
+			st, err := parser.ParseSrc(src)
+			if err != nil {
+				return "error: " + err.Error()
+			}
+			return astser.Prog(st)
+		}
+		first := map[string]string{}
+		for round := 0; round < 4; round++ {
+			for _, src := range again {
+				v := verdict(src)
+				o.Sum.Evaluations++
+				o.Sum.Hist["parse-again"]++
+				if round == 0 {
+					first[src] = v
+				} else if v != first[src] {
+					o.Fail(Failure{Oracle: "tree-as-spelled", Key: "parse-again-differs", Input: src, Detail: fmt.Sprintf("first parse: %s\nparse number %d of the same text: %s", first[src], round+1, v)})
+				}
+			}
+		}
+	}
 	// a raw string denotes exactly the bytes between the back quotes - CR LF, a lone CR, a byte order mark included;
 	// and a file that starts with a byte order mark is not silently accepted as if it did not
 	for _, raw := range []string{"a\r\nb", "one\r\ntwo\r\n", "\r", "a\rb", "\xef\xbb\xbfx", "a\n\r\nb", "\r\n", "tab\there", "q\"uote'", "\\n stays two characters"} {
